@@ -91,13 +91,15 @@ def fieldsName : Bytes := [102, 105, 101, 108, 100, 115]
 def decBytes (v : Int) : Bytes := (toString v).toUTF8.toList
 def measPrefix : Bytes := "measurement_".toUTF8.toList
 
-/-- unit detection shared by both files (thresholds and multipliers are factgen-checked to be the
-same in `normalizeTimestampColumns` and `decodeTimeColumnTyped`). multiplier < 0 = divide. -/
-def tsMult (ts : Int) : Int :=
-  if ts < 10000000000 then 1000000
-  else if ts < 10000000000000 then 1000
-  else if ts < 10000000000000000 then 1
-  else -1000
+/-- unit detection: first threshold the value is below decides the multiplier (< 0 = divide). -/
+def multOf : List (Int × Int) → Int → Int → Int
+  | [], dflt, _ => dflt
+  | (th, m) :: rest, dflt, ts => if ts < th then m else multOf rest dflt ts
+
+/-- `decodeTimeColumnTyped`'s table (regenerated from msgpack_typed.go) -/
+def tsMultT (ts : Int) : Int := multOf typedUnits typedUnitDefault ts
+/-- `normalizeTimestampColumns`' table (regenerated from msgpack.go) -/
+def tsMultG (ts : Int) : Int := multOf normUnits normUnitDefault ts
 
 def applyMult (m : Int) (ts : Int) : Int :=
   if m < 0 then Int.tdiv ts (-m) else wrap64 (ts * m)
@@ -138,7 +140,7 @@ def typedTime (xs : List MV) : Option (List Int) :=
   match typedTsAll F xs with
   | none => none
   | some [] => some []
-  | some (t0 :: ts) => some ((t0 :: ts).map (applyMult (tsMult t0)))
+  | some (t0 :: ts) => some ((t0 :: ts).map (applyMult (tsMultT t0)))
 
 inductive Cls | int | float | str | bool deriving DecidableEq, Repr
 
@@ -499,7 +501,7 @@ def normalizeTime : List GoVal → Option (List GoVal)
   | x0 :: xs =>
     match toInt64Ts F x0 with
     | none => none
-    | some t0 => normAll F (tsMult t0) (x0 :: xs)
+    | some t0 => normAll F (tsMultG t0) (x0 :: xs)
 
 def sanVal : GoVal → GoVal
   | .str s => .str (san s)
